@@ -93,7 +93,7 @@ func history(r *rand.Rand, f *bgz.File, n int, caches bool) []bgz.ROp {
 		default:
 			if caches {
 				kind := []string{"LRU", "FIFO", "Random", "LRU", "FIFO", "Random", "none"}[r.Intn(7)]
-				ops = append(ops, bgz.ROp{K: "setcache", Kind: kind, Cap: 1 + r.Intn(4), Stats: r.Intn(4) == 0})
+				ops = append(ops, bgz.ROp{K: "setcache", Kind: kind, Cap: 1 + r.Intn(4), Stats: r.Intn(4) == 0, Pre: r.Intn(4) == 0})
 			} else {
 				ops = append(ops, bgz.ROp{K: "read", N: 1 + r.Intn(8)})
 			}
